@@ -165,12 +165,14 @@ class TlsWorld(World):
         return {str(k): v for (k, v) in dict(res[1]).items()} if res[0] == 'ok' else res
 
 
-def run_exchange(world, peer_can_tls, peer_flags=None, node_id=None):
+def run_exchange(world, peer_can_tls, peer_flags=None, node_id=None, one_read=False):
     '''The scripted peer plays a correct TCPCL peer (peer_flags: the whole flags octet of its
     contact header, reserved bits included; node_id: what its SESS_INIT announces).'''
     world.quiesce()
     world.peer_write(T.enc_contact(peer_flags if peer_flags is not None else (1 if peer_can_tls else 0)))
-    world.quiesce()
+    if not one_read:
+        world.quiesce()
+    # (one_read: the peer's SESS_INIT is already there when the endpoint reads the contact header)
     world.peer_write(T.enc_sess_init(0, 64, 1000, PEER_NODE if node_id is None else node_id))
     world.quiesce()
     (msgs, _rest) = T.parse_all(world.out, with_contact=True)
@@ -200,13 +202,14 @@ def run_table1(params, known):
         v['case'] = row
         violations.append(v)
     # the peer's flags octet: CAN_TLS is bit 0, the other bits are reserved and must be ignored
-    for (tls_enable, peer_flags, require, role, hs_ok) in itertools.product((True, False), (0x00, 0x01, 0x03, 0x81, 0xFE, 0xFF),
-                                                                            (None, True, False), ('active', 'passive'), (True, False)):
+    for (tls_enable, peer_flags, require, role, hs_ok, one_read) in itertools.product(
+            (True, False), (0x00, 0x01, 0x03, 0x81, 0xFE, 0xFF), (None, True, False), ('active', 'passive'), (True, False), (False, True)):
         count += 1
         peer_can = bool(peer_flags & 1)
-        row = dict(tls_enable=tls_enable, peer_can_tls=peer_can, peer_flags=peer_flags, require_tls=require, role=role, handshake_ok=hs_ok)
+        row = dict(tls_enable=tls_enable, peer_can_tls=peer_can, peer_flags=peer_flags, require_tls=require, role=role, handshake_ok=hs_ok,
+                   sess_init_in_the_same_read=one_read)
         world = TlsWorld(role, tls_enable, require, False, False, False, hs_ok, make_cert(()))
-        obs = run_exchange(world, peer_can, peer_flags=peer_flags)
+        obs = run_exchange(world, peer_can, peer_flags=peer_flags, one_read=one_read)
         if world.escaped:
             viol('exception-escaped-callback', dict(exc=world.escaped[-1][0]), '%s: %s' % world.escaped[-1][:2], row)
             continue
@@ -529,6 +532,12 @@ def make_cert(sans):
     return _CERTS[key]
 
 
+# what the peer's SESS_INIT announces: its node ID, nothing, or texts that are *not* its node ID
+# (white space around it, one more character): no URI name of the certificate equals those
+ANNOUNCED = {'own': None, 'empty': b'', 'own+newline': PEER_NODE.encode() + b'\n', 'space+own': b' ' + PEER_NODE.encode(),
+             'own+x': PEER_NODE.encode() + b'x'}
+
+
 def policy(sans, role, by_name, require_host, require_node, announced='own'):
     '''Independent statement: returns True when the session may be established.
     announced='empty': the peer announces a zero-length node ID, which no URI name equals.'''
@@ -575,14 +584,16 @@ def run_table2(params, known):
     for bits in range(64):
         sans = tuple(SAN_BITS[i] for i in range(6) if bits >> i & 1)
         for (by_name, require_host, require_node, role, announced) in itertools.product((False, True), (False, True), (False, True),
-                                                                                       ('active', 'passive'), ('own', 'empty')):
+                                                                                       ('active', 'passive'), ANNOUNCED):
+            if announced not in ('own', 'empty') and 'uri-match' not in sans:
+                continue
             idx += 1
             if idx % parts != part:
                 continue
             count += 1
             row = dict(sans=list(sans), by_name=by_name, require_host=require_host, require_node=require_node, role=role, announced=announced)
             world = TlsWorld(role, True, True, require_host, require_node, by_name, True, make_cert(sans))
-            obs = run_exchange(world, True, node_id=(None if announced == 'own' else b''))
+            obs = run_exchange(world, True, node_id=ANNOUNCED[announced])
             if world.escaped:
                 viol('exception-escaped-callback', dict(exc=world.escaped[-1][0]), '%s: %s' % world.escaped[-1][:2], row)
                 continue
@@ -626,10 +637,10 @@ ASSUMPTIONS = [
     'an identifier type "contradicts" when the certificate presents names of that type and none equals the reference; with no reference (peer DNS name unknown) a DNS name cannot contradict and cannot authenticate the host',
     'configuration file: read by the JSON-subset stand-in for PyYAML; every combination of absent / true / false / null / 0 / empty values of nine settings, and the TLS rows of table 1 with the settings taken from the file',
     'two contacts of one process whose settings differ in tls_enable (8 pairs of settings x roles x peers offering TLS or not), started and answered in all 6 orders',
-    'a correct scripted peer: contact header (flags octet 0x00, 0x01, 0x03, 0x81, 0xFE or 0xFF: reserved bits are ignored), then SESS_INIT announcing its node ID or a zero-length node ID (which no URI name of a certificate equals)',
+    'a correct scripted peer: contact header (flags octet 0x00, 0x01, 0x03, 0x81, 0xFE or 0xFF: reserved bits are ignored), then SESS_INIT announcing its node ID, a zero-length node ID, or its node ID with white space / one more character around it (which no URI name of a certificate equals)',
 ]
 
-RULE = ('complete decision tables (144 + 2048 rows) executed on a fresh real endpoint each; non-trivial = rows in which the '
+RULE = ('complete decision tables (288 + 3584 rows) executed on a fresh real endpoint each; non-trivial = rows in which the '
         'policy forbids the session (table 2) or allows it (table 1)')
 
 
